@@ -117,7 +117,13 @@ type Disk struct {
 	failed bool
 	events []DiskEvent
 	fired  int
+	// returnedAt: number of WriteFile calls that had started when Publish
+	// returned (-1 while it is running)
+	returnedAt int
 }
+
+//go:norace
+func (d *Disk) markReturned() { d.returnedAt = d.calls }
 
 //go:norace
 func (d *Disk) next() (k int, fail bool) {
@@ -179,6 +185,8 @@ type pubRun struct {
 	kinds  map[string]string
 	dups   [][2]string // (name, "KindA x KindB")
 	fired  int
+	// lateWrites: WriteFile calls that started after Publish had returned
+	lateWrites int
 }
 
 func runPublish(t *testing.T, cr *CaseResult, prop string, text string, opts PubOptions, jobs int, sim simrt.Config, today string, faults []DiskFault) (*pubRun, bool) {
@@ -205,7 +213,7 @@ func runPublishWith(t *testing.T, cr *CaseResult, prop string, doc *gedcom.Docum
 	if opts.MaxLivingAgeZero {
 		doc.MaxLivingAge = 0
 	}
-	disk := &Disk{faults: faults}
+	disk := &Disk{faults: faults, returnedAt: -1}
 	run := &pubRun{}
 	var perr error
 	if lib == nil {
@@ -227,7 +235,11 @@ func runPublishWith(t *testing.T, cr *CaseResult, prop string, doc *gedcom.Docum
 			return
 		}
 		perr = publisher.Publish(disk, jobs)
+		disk.markReturned()
 	})
+	if disk.returnedAt >= 0 && disk.calls > disk.returnedAt {
+		run.lateWrites = disk.calls - disk.returnedAt
+	}
 	run.err = perr
 	run.events = disk.events
 	run.fired = disk.fired
@@ -733,6 +745,9 @@ func runPublishCase(t *testing.T, c *Case) *CaseResult {
 		cr.observe("fault-free publish returned an error: " + canon.err.Error())
 	}
 	cr.Probes["files"] += int64(len(canon.files))
+	if canon.lateWrites > 0 {
+		cr.violate(prop+"/termination", "files are written after Publish has returned", fmt.Sprintf("%d WriteFile calls started after Publish returned", canon.lateWrites))
+	}
 	checkConfinement(cr, prop, canon.events)
 	checkCollisions(cr, prop, canon)
 	checkClosure(cr, prop, canon.files, canon.kinds, cfg.Options, individualKeys(c.Docs[0]))
@@ -861,6 +876,10 @@ func runPublishCase(t *testing.T, c *Case) *CaseResult {
 			}
 			if jobs > 1 {
 				cr.Probes["writer_failed_with_jobs>1"]++
+			}
+			if run.lateWrites > 0 {
+				cr.violate(prop+"/termination", "files are written after Publish has returned",
+					fmt.Sprintf("WriteFile call %d failed (jobs=%d sticky=%v): %d WriteFile calls started after Publish had returned", k, jobs, f.Sticky, run.lateWrites))
 			}
 			switch run.res.Outcome {
 			case "completed":
